@@ -145,8 +145,8 @@ CHECKS.update({
             "array, list of datetimes or Timestamps, Series, DatetimeIndex; sub-second sampling); the multiset of (stream, "
             "test, row mask, flags) must equal the direct calls on {starting <= t < ending} and the probes must have "
             "received exactly the restricted arrays.",
-            "naive windows, no regions; open findings K-1/K-2/K-3/K-10 (XarrayStream windows) are excluded only when the "
-            "outcome equals what those defects produce exactly (K-10: the KeyError on that layout with a two-sided window)", "DESIGN.md 4 C05"),
+            "naive windows, no regions; open findings K-2/K-10 (XarrayStream windows when time is not a coordinate / axes on another "
+            "dimension) are excluded only when the outcome equals what those defects produce exactly", "DESIGN.md 4 C05"),
 })
 
 CHECKS.update({
